@@ -10,6 +10,21 @@ TRUST = ("Trusted: TLC, the four pyenv interpreters 3.7.16/3.8.18/3.9.18/3.10.13
          "stated in the evidence file.")
 
 CHECKS = {
+    "C15": dict(
+        technique="TLA+ MC_Hosts (host-indexed value algebra) enumerates producer/consumer/operation-sequence behaviours; replayed "
+                  "with real producers 3.7-3.10 and consumers 3.7-3.13; TLC trace validation (Trace_Hosts)",
+        text="Every document of the producers (corpus, snippets, model constants at every position) is loaded, normalised, dumped "
+             "and reloaded on every consumer along every operation sequence of the bounded model; TLC recomputes which of the "
+             "producer's documents (raw / normalised) must come out and checks the recording.",
+        ref="DESIGN.md 5 C15"),
+    "C16": dict(
+        technique="TLA+ decision table Cli.tla; TLC enumerates all 512 option sets (MC_Cli); each run for real as a subprocess on "
+                  "3.7-3.10; stdout split into sections and compared with the in-process API result; TLC trace validation "
+                  "(Trace_Cli)",
+        text="Exit status and printed sections of every option set are checked against the decision table; the data and JSON "
+             "sections must be exactly the API's (normalised or not) for the same program obtained the same way; --dis-after "
+             "must list the instructions of --dis.",
+        ref="DESIGN.md 5 C16"),
     "C14": dict(
         technique="TLA+ MC_Nesting enumerates nesting shapes (entries referenced once / twice / not at all, two levels); shapes built "
                   "as real nested code objects; TLC trace validation (Trace_Decode, P14.*) of __iter__/all_code_data() against "
